@@ -27,7 +27,12 @@ from puresnmp.exc import SnmpError
 from puresnmp.pdu import GetRequest, PDUContent, Report
 from puresnmp.plugins.security import SecurityModel
 from puresnmp.transport import MESSAGE_MAX_SIZE
-from puresnmp.util import get_request_id, localise_key, validate_response_id
+from puresnmp.util import (
+    get_request_id,
+    localise_key,
+    reject_indefinite_length,
+    validate_response_id,
+)
 
 IDENTIFIER = 3
 
@@ -154,6 +159,7 @@ class USMSecurityParameters:
         """
         Construct a USMSecurityParameters instance from pure bytes
         """
+        reject_indefinite_length(data)
         seq, _ = decode(data, enforce_type=Sequence)
         return USMSecurityParameters.from_snmp_type(seq)
 
@@ -554,6 +560,7 @@ class UserSecurityModel(
         )
         payload = bytes(discovery_message)
         raw_response = await transport_handler(payload)
+        reject_indefinite_length(raw_response)
         response, _ = decode(raw_response, enforce_type=Sequence)
         if isinstance(response, Null):
             raise SnmpError("Unexpectedly got a NULL object")
